@@ -283,7 +283,7 @@ func casesC32(c *vc.Ctx) []Case {
 	// wait gN returns job N's status whatever the scheduling
 	add(Case{Name: "wait/2jobs", Prog: "(exit 3) & (exit 5) & wait g1; echo $?; wait g2; echo $?", Expect: sp(`status=0 stdout="3\n5\n"`)})
 	add(Case{Name: "wait/2jobs-reversed", Prog: "(exit 3) & (exit 5) & wait g2; echo $?; wait g1; echo $?", Expect: sp(`status=0 stdout="5\n3\n"`)})
-	add(Case{Name: "wait/3jobs", Prog: "(exit 1) & (exit 2) & (exit 3) & wait g2; echo $?; wait g3; echo $?; wait g1; echo $?", Expect: sp(`status=0 stdout="2\n3\n1\n"`), Bound: 2})
+	add(Case{Name: "wait/3jobs", Prog: "(exit 1) & (exit 2) & (exit 3) & wait g2; echo $?; wait g3; echo $?; wait g1; echo $?", Expect: sp(`status=0 stdout="2\n3\n1\n"`), Bound: vc.Pick(c, 1, 2)})
 	add(Case{Name: "wait/bang", Prog: "(exit 4) & p=$!; (exit 6) & wait $p; echo $?; wait $!; echo $?", Expect: sp(`status=0 stdout="4\n6\n"`)})
 	add(Case{Name: "wait/both-args", Prog: "(exit 4) & (exit 6) & wait g1 g2; echo $?", Expect: sp(`status=0 stdout="6\n"`)})
 	add(Case{Name: "wait/slow-job", Prog: "{ sleep 1; sleep 1; exit 7; } & { exit 8; } & wait g1; echo $?; wait g2; echo $?", Expect: sp(`status=0 stdout="7\n8\n"`)})
@@ -294,9 +294,9 @@ func casesC32(c *vc.Ctx) []Case {
 	add(Case{Name: "wait/procsubst-then-job", Prog: "cat <(echo a) >/dev/null; (exit 3) & wait g2; echo $?", Expect: sp(`status=0 stdout="3\n"`)})
 	// private state only: one outcome
 	add(Case{Name: "private/two-writers", Prog: "{ y=1; y+=2; echo $y >/dev/null; } & { z=(1 2); z+=(3); } & wait; echo done", Same: true})
-	add(Case{Name: "private/pipe-chain", Prog: "echo a | cat | cat | { read l; echo $l; }", Same: true, PipeCap: 1})
-	add(Case{Name: "private/pipe-big", Prog: "echo abcdefghijklmnop | cat | { read l; echo ${#l}; }", Same: true, PipeCap: 3})
-	add(Case{Name: "private/heredoc", Prog: "cat <<EOF | cat\nline1 $((1+1))\nline2\nEOF", Same: true, PipeCap: 4})
+	add(Case{Name: "private/pipe-chain", Prog: "echo a | cat | cat | { read l; echo $l; }", Same: true, PipeCap: 1, Bound: vc.Pick(c, 1, 2)})
+	add(Case{Name: "private/pipe-big", Prog: "echo abcdefghijklmnop | cat | { read l; echo ${#l}; }", Same: true, PipeCap: 3, Bound: 1})
+	add(Case{Name: "private/heredoc", Prog: "cat <<EOF | cat\nline1 $((1+1))\nline2\nEOF", Same: true, PipeCap: 4, Bound: vc.Pick(c, 1, 2)})
 	add(Case{Name: "private/herestring", Prog: "read l <<<\"abc def\"; echo $l", Same: true, PipeCap: 2})
 	add(Case{Name: "private/procsubst-both", Prog: "cat <(echo a) <(echo b)", Same: true})
 	add(Case{Name: "private/procsubst-out", Prog: "echo hi > >(cat); wait; echo end", Same: true})
